@@ -319,6 +319,21 @@ def parse_show(rc_case, stdout):
     return {'sets': sets, 'injectors': injectors}
 
 
+def frame_ok(path, pkgname):
+    """framing facts of a generated file: generated-code marker first, the !wireinject constraint before the package
+    clause, the right package clause (a projection of the bytes; the judge decides what to require)"""
+    try:
+        txt = open(path).read()
+    except OSError:
+        return False
+    m = re.search(r'^package (\w+)$', txt, re.M)
+    if not m:
+        return False
+    head = txt[:m.start()]
+    return bool(re.search(r'^// Code generated by Wire\. DO NOT EDIT\.$', head, re.M)
+                and re.search(r'^//\s*(go:build|\+build) !wireinject$', head, re.M) and m.group(1) == pkgname)
+
+
 PANIC_RE = re.compile(r'^(panic: |goroutine \d+ \[|fatal error: )', re.M)
 
 
@@ -404,6 +419,8 @@ class ToolRun:
                 continue
             if blk in ('at least one generate failure', 'error loading packages'):
                 continue
+            if blk.startswith('Warning:'):       # deprecation warnings are not diagnostics of a failure
+                continue
             if blk == 'generate failed':
                 load_failed = True
                 continue
@@ -433,6 +450,9 @@ class ToolRun:
                 o['diags'] = [tokenize_diag(c, b, modroot) for b in unattributed]
             if (panic or hang) and len(dirs) == 1:
                 o['stderr_tail'] = se[-1500:]
+            o['frame_ok'] = True
+            if o['wrote'] and self.cmd == 'gen':
+                o['frame_ok'] = frame_ok(os.path.join(self.b.root, d, 'wire_gen.go'), c.pkgname)
             if self.cmd == 'show':
                 o.update(parse_show(c, so))
             w = getattr(self, 'work', {}).get(d)
